@@ -273,6 +273,10 @@ impl<PN: PropertyName, VN: VariantName> EntryTrait<PN, VN> for BasicEntry<PN, VN
         }
     }
     fn value_count(&self) -> PropertyCount {
+        assert!(
+            self.values.len() <= u8::MAX as usize,
+            "An entry cannot have more than 255 values"
+        );
         (self.values.len() as u8).into()
     }
     fn set_idx(&mut self, idx: EntryIdx) {
